@@ -1,0 +1,5 @@
+//go:build !verif
+
+package builder
+
+func simYield(string) {}
